@@ -546,6 +546,133 @@ func c05Run(r *Run) {
 					return true
 				})
 			}
+			// every statement list of the node other than finally (try body, catch bodies, an else block) is
+			// run under the recover: directly inside a function literal handed to the recovering helper, or
+			// in a function that defers the recover itself
+			{
+				hasRecover := func(fd *ast.FuncDecl) bool {
+					found := false
+					ast.Inspect(fd.Body, func(n ast.Node) bool {
+						if d, ok := n.(*ast.DeferStmt); ok {
+							isRecover := func(m ast.Node) bool {
+								if c, ok := m.(*ast.CallExpr); ok {
+									if id, ok := ast.Unparen(c.Fun).(*ast.Ident); ok && id.Name == "recover" {
+										_, isB := info.Uses[id].(*types.Builtin)
+										return isB
+									}
+								}
+								return false
+							}
+							ast.Inspect(d, func(m ast.Node) bool {
+								if isRecover(m) {
+									found = true
+								}
+								return true
+							})
+							// defer t.panicToThrow(&v, &c): the deferred function itself calls recover()
+							if cal := calleeFunc(info, d.Call); cal != nil && cal.Pkg() == npkg.Types {
+								if hd := declOf(npkg, cal); hd != nil && hd.Body != nil {
+									ast.Inspect(hd.Body, func(m ast.Node) bool {
+										if _, isLit := m.(*ast.FuncLit); isLit {
+											return false // recover() in a nested literal does not stop this panic
+										}
+										if isRecover(m) {
+											found = true
+										}
+										return true
+									})
+								}
+							}
+						}
+						return true
+					})
+					return found
+				}
+				protector := map[*types.Func]bool{}
+				declByObj := map[*types.Func]*ast.FuncDecl{}
+				for fd := range seen {
+					if f, ok := info.Defs[fd.Name].(*types.Func); ok {
+						declByObj[f] = fd
+						if hasRecover(fd) {
+							protector[f] = true
+						}
+					}
+				}
+				isUserList := func(e ast.Expr) bool {
+					se, ok := ast.Unparen(e).(*ast.SelectorExpr)
+					if !ok || !stmtList(info.TypeOf(e)) {
+						return false
+					}
+					return !strings.Contains(strings.ToLower(se.Sel.Name), "finally")
+				}
+				memo := map[*ast.FuncDecl]int{} // 1 running, 2 clean, 3 runs unprotected
+				var firstBad token.Pos
+				var unprot func(fd *ast.FuncDecl) bool
+				unprot = func(fd *ast.FuncDecl) bool {
+					switch memo[fd] {
+					case 1, 2:
+						return false
+					case 3:
+						return true
+					}
+					memo[fd] = 1
+					bad := false
+					var walk func(n ast.Node, protected bool)
+					walk = func(n ast.Node, protected bool) {
+						ast.Inspect(n, func(m ast.Node) bool {
+							if m == nil || m == n {
+								return true
+							}
+							switch x := m.(type) {
+							case *ast.CallExpr:
+								cal := calleeFunc(info, x)
+								if cal != nil && protector[cal] {
+									for _, a := range x.Args {
+										if lit, ok := ast.Unparen(a).(*ast.FuncLit); ok {
+											walk(lit.Body, true)
+										} else {
+											walk(a, protected)
+										}
+									}
+									walk(x.Fun, protected)
+									return false
+								}
+								if cal != nil && !protected {
+									if hd := declByObj[cal]; hd != nil && !protector[cal] && unprot(hd) {
+										bad = true
+										if firstBad == token.NoPos {
+											firstBad = x.Pos()
+										}
+									}
+								}
+							case *ast.RangeStmt:
+								if !protected && isUserList(x.X) {
+									bad = true
+									if firstBad == token.NoPos {
+										firstBad = x.Pos()
+									}
+								}
+							}
+							return true
+						})
+					}
+					walk(fd.Body, false)
+					if bad {
+						memo[fd] = 3
+					} else {
+						memo[fd] = 2
+					}
+					return bad
+				}
+				if f, ok := info.Defs[entry.Name].(*types.Func); ok && recovers && !protector[f] {
+					ukey := "node.(" + tn.Name() + ")#user-code-protected"
+					if unprot(entry) {
+						r.bad(ukey, firstBad, "a statement list of this node other than its finally block is run outside the recovering region: a Go panic raised there unwinds past the statement and its finally block never runs")
+					} else {
+						r.ok(ukey, entry.Pos(), "every statement list of the node other than finally runs inside the recovering region")
+					}
+				}
+			}
 			key := "node.(" + tn.Name() + ")#panic-protected"
 			if recovers {
 				r.ok(key, entry.Pos(), "the statement's evaluation recovers a Go panic (it becomes a throw and reaches finally)")
